@@ -25,7 +25,7 @@ func init() {
 				"called from lexText, lexLeftDelim, lexRightDelim and lexComment; in the delimiter functions only under the trim-marker fact, in lexText only for the trimLength bytes computed under the " +
 				"left-trim-marker test after the pending text was emitted; the parser drops an itemText token without a node only in the header loop of parseTemplate under TrimSpace(val) == \"\". " +
 				"(C03.space) the trim predicate isSpace compares with exactly {space, tab, CR, LF} and both trim-length helpers use it. (C03.delims) the lexer reads delimiters only from its " +
-				"configured fields; the default* constants are referenced only by the lexer constructor. (C03.next) lexText continues at the nearer of the next action candidate and the next comment candidate: the selection code, which touches the two positions by comparisons only, is executed on one representative of every ordering of absent/present positions. (C03.drop, continued) white-space-only text that parseTemplate consumes while looking for extends/import clauses is saved and built into text nodes again before the body is parsed, unless such a clause was seen.",
+				"configured fields; the default* constants are referenced only by the lexer constructor. (C03.next) lexText continues at the nearer of the next action candidate and the next comment candidate: the selection code, which touches the two positions by comparisons only, is executed on one representative of every ordering of absent/present positions. (C03.drop, continued) white-space-only text that parseTemplate consumes while looking for extends/import clauses is saved and built into text nodes again before the body is parsed, unless such a clause was seen. (C03.delims setters, continued) a setter may store through a helper that receives a pointer to the lexer field and a copy of the parameter; what is known about a parameter being empty is kept per parameter.",
 			NotDecided:  "the index arithmetic of lexText's search for the next delimiter/comment start; ambiguity between user-chosen delimiters; that exactly the adjacent run is trimmed (the value of trimLength).",
 			Assumptions: []string{"strings.TrimLeftFunc/TrimRightFunc/HasPrefix behave as documented"},
 			Trusted:     commonTrusted,
@@ -608,16 +608,81 @@ func c03configured(c *an.Ctx) {
 			continue
 		}
 		ginfo := g.Info()
+		// paramOf: the setter's parameter an identifier stands for — itself, or a helper's parameter bound to it
+		// (register "is:<key>", written where the binding is made)
+		paramOf := func(x *an.Explorer, e ast.Expr, st *an.State) int {
+			id, ok := an.Unparen(e).(*ast.Ident)
+			if !ok {
+				return -1
+			}
+			if i, isParam := an.IsParam(g, an.ObjOf(ginfo, id)); isParam {
+				return i
+			}
+			if k, ok := x.Key(id); ok {
+				if v := st.Get("is:" + k); v != "" {
+					return int(v[0] - '0')
+				}
+			}
+			return -1
+		}
 		hk := an.Hooks{
 			PreAssign: func(x *an.Explorer, lhs, rhs ast.Expr, stmt ast.Node, st *an.State) {
 				if rhs == nil {
 					return
 				}
-				if id, ok := an.Unparen(rhs).(*ast.Ident); ok {
-					if i, isParam := an.IsParam(g, an.ObjOf(ginfo, id)); isParam && i >= 0 && i < len(targets) && p.FieldKey(ginfo, lhs) == targets[i] {
-						st.Set("stored:"+targets[i], "1")
+				// bindings of a helper's parameters: a pointer to a lexer field, a copy of a parameter
+				if lid, ok := an.Unparen(lhs).(*ast.Ident); ok {
+					if lk, ok := x.Key(lid); ok {
+						st.Set("ptr:"+lk, "")
+						st.Set("is:"+lk, "")
+						if u, ok := an.Unparen(rhs).(*ast.UnaryExpr); ok && u.Op == token.AND {
+							if fk := p.FieldKey(ginfo, u.X); fk != "" {
+								st.Set("ptr:"+lk, fk)
+							}
+						}
+						if i := paramOf(x, rhs, st); i >= 0 && i < 10 {
+							st.Set("is:"+lk, string(rune('0'+i)))
+						}
+					}
+					return
+				}
+				// a direct store to a lexer field (whatever is stored): the fields derived from a delimiter are kept in step
+				if dk := p.FieldKey(ginfo, lhs); strings.HasPrefix(dk, "lexer.") {
+					st.Set("wrote:"+dk, "1")
+				}
+				i := paramOf(x, rhs, st)
+				if i < 0 || i >= len(targets) {
+					return
+				}
+				fk := p.FieldKey(ginfo, lhs)
+				if star, ok := an.Unparen(lhs).(*ast.StarExpr); ok {
+					if k, ok := x.Key(star.X); ok {
+						fk = st.Get("ptr:" + k)
 					}
 				}
+				if fk == targets[i] {
+					st.Set("stored:"+targets[i], "1")
+				}
+			},
+			// what is known about a parameter being empty is kept per parameter (a helper tests its own copy)
+			Branch: func(x *an.Explorer, cond ast.Expr, val bool, st *an.State) {
+				ast.Inspect(cond, func(n ast.Node) bool {
+					b, ok := n.(*ast.BinaryExpr)
+					if !ok || (b.Op != token.EQL && b.Op != token.NEQ) {
+						return true
+					}
+					for _, pr := range [][2]ast.Expr{{b.X, b.Y}, {b.Y, b.X}} {
+						if an.Str(an.Unparen(pr[1])) != `""` {
+							continue
+						}
+						if i := paramOf(x, pr[0], st); i >= 0 {
+							if t, known := x.Truth(b, st); known && t == (b.Op == token.EQL) {
+								st.Set("empty:"+string(rune('0'+i)), "1")
+							}
+						}
+					}
+					return true
+				})
 			},
 		}
 		gx := p.NewExplorer(g, hk)
@@ -630,11 +695,23 @@ func c03configured(c *an.Ctx) {
 				if ex.Kind != an.ExitReturn || pv == nil {
 					continue
 				}
-				if ex.State.Get("stored:"+target) == "" && !an.FactIs(ex.State, an.RoleOf(pv)+` == ""`, true) {
+				if ex.State.Get("stored:"+target) == "" && !an.FactIs(ex.State, an.RoleOf(pv)+` == ""`, true) && ex.State.Get("empty:"+string(rune('0'+i))) == "" {
 					ok = false
 				}
 			}
 			c.Check(ok, "C03.delims", g.Name+"/"+target, g.Pos(), "a non-empty parameter is stored into "+target, g.Name+" can return without storing its non-empty parameter "+fmt.Sprint(i)+" into "+target)
+			// a field the constructor computes from this one (trimRightDelim = trim marker + rightDelim) is written on
+			// every path on which this one is: the lexer looks for both spellings of the delimiter
+			for _, dv := range c03derived(p)[target] {
+				in := true
+				for _, ex := range gx.Exits {
+					if ex.Kind == an.ExitReturn && ex.State.Get("stored:"+target) != "" && ex.State.Get("wrote:"+dv) == "" {
+						in = false
+					}
+				}
+				c.Check(in, "C03.delims", g.Name+"/"+dv+"-follows", g.Pos(), dv+" is recomputed wherever "+target+" is set",
+					g.Name+" stores a new "+target+" on a path on which it does not recompute "+dv+", which the constructor derives from it: the lexer goes on looking for the default spelling (an action ended by the stale trim form is accepted, the configured one is not recognised)")
+			}
 		}
 	}
 }
@@ -1123,4 +1200,50 @@ func c03leadingKept(c *an.Ctx, pt *an.Fn) {
 	} else {
 		c.OK("C03.drop", key, pt.Pos(), "white space skipped while looking for extends/import is put back unless a clause was seen")
 	}
+}
+
+// c03derived: lexer fields the constructor initialises with an expression built from the initial value of another
+// field (`trimRightDelim: rightTrimMarker + defaultRightDelim` next to `rightDelim: defaultRightDelim`): field → the
+// fields derived from it.
+func c03derived(p *an.Prog) map[string][]string {
+	out := map[string][]string{}
+	for _, f := range p.Units() {
+		if f.Pkg != p.Jet || f.Body == nil {
+			continue
+		}
+		info := f.Info()
+		an.InspectBody(f, func(n ast.Node) bool {
+			cl, ok := n.(*ast.CompositeLit)
+			if !ok {
+				return true
+			}
+			if named := an.NamedOf(info.Types[cl].Type); named == nil || named.Obj().Name() != "lexer" {
+				return true
+			}
+			inits := map[string]ast.Expr{}
+			for _, el := range cl.Elts {
+				if kv, ok := el.(*ast.KeyValueExpr); ok {
+					if k, ok := kv.Key.(*ast.Ident); ok {
+						inits[k.Name] = kv.Value
+					}
+				}
+			}
+			for b, eb := range inits {
+				bin, ok := an.Unparen(eb).(*ast.BinaryExpr)
+				if !ok || bin.Op != token.ADD {
+					continue
+				}
+				for a, ea := range inits {
+					if a != b && (an.Str(bin.X) == an.Str(ea) || an.Str(bin.Y) == an.Str(ea)) {
+						out["lexer."+a] = append(out["lexer."+a], "lexer."+b)
+					}
+				}
+			}
+			return true
+		})
+	}
+	for k := range out {
+		sort.Strings(out[k])
+	}
+	return out
 }
